@@ -1,5 +1,7 @@
 import Pk.Pairs
 import Pk.Inst
+import Mathlib.Data.Matrix.Mul
+import Mathlib.Algebra.BigOperators.Group.List.Basic
 /-! # C05 — Regressors train on exactly the within-episode consecutive pairs
 
 `KoopmanRegressor.fit` calls `shift_episodes`, strips the episode column and hands the two matrices to
@@ -86,5 +88,22 @@ private def xDemo : Mat (List Int) := [(7, [1, 10]), (3, [2, 20]), (7, [3, 30]),
 /-- non-vacuity / concrete check on an interleaved two-episode matrix with one input column -/
 example : trainPairs (dropInputs 1) xDemo
     = [([2, 20], [4]), ([1, 10], [3]), ([3, 30], [5])] := by decide
+
+end Pk.C05
+
+/-! ### the Gram sums only see the multiset of pairs -/
+namespace Pk.C05
+open Matrix
+
+/-- `G = Σ θ₊ ψᵀ` and `H = Σ ψ ψᵀ` over the training pairs (what every least-squares regressor of the package forms,
+up to the common factor `1/q`) -/
+def gramG {p t : Type} (ps : List ((p → ℚ) × (t → ℚ))) : Matrix t p ℚ := (ps.map fun pr => vecMulVec pr.2 pr.1).sum
+def gramH {p t : Type} (ps : List ((p → ℚ) × (t → ℚ))) : Matrix p p ℚ := (ps.map fun pr => vecMulVec pr.1 pr.1).sum
+
+/-- relabelling or reordering the episodes permutes the training pairs (`C05_relabel_perm`); the Gram matrices — hence
+the normal equations and, where their solution is unique (C06), the fitted Koopman matrix — do not change -/
+theorem C05_gram_perm {p t : Type} (ps qs : List ((p → ℚ) × (t → ℚ))) (h : ps.Perm qs) :
+    gramG ps = gramG qs ∧ gramH ps = gramH qs :=
+  ⟨(h.map _).sum_eq, (h.map _).sum_eq⟩
 
 end Pk.C05
